@@ -267,8 +267,16 @@ class World(object):
         return [inject.code_key(getattr(self._window, e).__code__)]
 
     # -- one execution of invocation j from the current rw state ---------------
-    def execute(self, j, fault=None, keep_events=False, env_extra=None):
-        """-> dict(outcome, diff, monitor).  `fault` is an inject.Fault or None."""
+    def execute(self, j, fault=None, keep_events=False, env_extra=None, isolated=False):
+        """-> dict(outcome, diff, monitor, oc).  `fault` is an inject.Fault (or a chain) or None.
+
+        isolated=True runs the execution in a forked child: recordings, injected runs and
+        environment flips of invocation j all start from exactly the process state the
+        history left behind (module-level state of pydl included), and none of them can
+        influence another or the history itself.  Only the execution that *advances* the
+        history runs here, in the run's own process - which is also what a replay does."""
+        if isolated:
+            return self._execute_forked(j, fault, keep_events, env_extra)
         saved_extra = self.invs[j].get('env_extra')
         if env_extra is not None:
             merged = dict(saved_extra or {})
@@ -289,7 +297,70 @@ class World(object):
                 fn, TOUCHED[self.invs[j]['entry']], fault=fault, keep_events=keep_events)
         self._after_run()
         diff = inject.env_diff(before, after)
-        return {'outcome': outcome, 'diff': diff, 'monitor': m}
+        res = {'outcome': outcome, 'diff': diff, 'monitor': m}
+        res['oc'] = outcome_class(self, res)
+        return res
+
+    def _execute_forked(self, j, fault, keep_events, env_extra, timeout=600.0):
+        import pickle as _pickle
+        import select
+        import time as _wall
+        r, w = os.pipe()
+        pid = os.fork()
+        if pid == 0:
+            code = 0
+            try:
+                os.close(r)
+                res = self.execute(j, fault=fault, keep_events=keep_events, env_extra=env_extra)
+                m = res['monitor']
+                payload = {'oc': res['oc'], 'diff': res['diff'], 'sim': self.sim_seconds,
+                           'mon': {'fired': m.fired, 'fired_all': m.fired_all, 'diverged': m.diverged,
+                                   'not_delivered': m.not_delivered, 'n': m.n,
+                                   'events': m.events if keep_events else [],
+                                   'mutations': m.mutations, 'other_mutations': m.other_mutations,
+                                   'reads': m.reads}}
+                with os.fdopen(w, 'wb') as f:
+                    _pickle.dump(payload, f, protocol=_pickle.HIGHEST_PROTOCOL)
+            except BaseException:
+                code = 3
+                try:
+                    import traceback
+                    with os.fdopen(w, 'wb') as f:
+                        _pickle.dump({'error': traceback.format_exc()}, f)
+                except Exception:
+                    pass
+            finally:
+                os._exit(code)
+        os.close(w)
+        chunks = []
+        t_end = _wall.monotonic() + timeout
+        timed_out = False
+        while True:
+            left = t_end - _wall.monotonic()
+            if left <= 0:
+                timed_out = True
+                break
+            ready, _, _ = select.select([r], [], [], min(left, 5.0))
+            if ready:
+                b = os.read(r, 1 << 20)
+                if not b:
+                    break
+                chunks.append(b)
+        os.close(r)
+        if timed_out:
+            try:
+                os.kill(pid, 9)
+            except OSError:
+                pass
+        os.waitpid(pid, 0)
+        if timed_out:
+            raise RuntimeError('harness: an isolated execution did not finish within %.0fs' % timeout)
+        payload = _pickle.loads(b''.join(chunks))
+        if 'error' in payload:
+            raise RuntimeError('harness: isolated execution failed:\n' + payload['error'])
+        self.sim_seconds = payload['sim']
+        mon = types.SimpleNamespace(**payload['mon'])
+        return {'outcome': None, 'diff': payload['diff'], 'monitor': mon, 'oc': payload['oc']}
 
     def scrub(self, s):
         return str(s).replace(self.root, '$ROOT')
@@ -297,6 +368,8 @@ class World(object):
 
 def outcome_class(world, res):
     """Deterministic, path-free summary of how an execution ended."""
+    if res.get('oc') is not None:
+        return res['oc']
     kind, exc = res['outcome']
     m = res['monitor']
     fired = m.fired is not None
